@@ -1232,6 +1232,100 @@ def shrink(case):
         yield dict(case, ops=ops[:i] + ops[i + 1:])
 
 
+# ------------------------------------------------------------------ step modules of one directory, loaded by load_step_modules
+MOD_PATTERNS = {"parse": "m%d eats {n:d} apples", "cfparse": "m%d eats {n:d} apples", "re": r"m%d eats (?P<n>\d+) apples"}
+
+
+def impl_modules(case):
+    """A steps directory with several modules; some choose a matcher with use_step_matcher() and leave it chosen. Each module
+    registers one definition written for the matcher in force for it: its own choice, otherwise the run's default."""
+    import tempfile, shutil, io, contextlib
+    from behave import matchers
+    factory = matchers.get_step_matcher_factory()
+    from behave.runner_util import load_step_modules
+    from behave.step_registry import registry
+    from behave.model_core import Status
+    saved = {k: list(v) for k, v in registry.steps.items()}
+    top = tempfile.mkdtemp(prefix="c11m_")
+    outs = []
+    try:
+        for k in registry.steps:
+            registry.steps[k] = []
+        factory.reset()
+        if case["default"] != "parse":
+            factory.use_step_matcher(case["default"])           # like environment.py at module level
+        for i, (fname, own) in enumerate(case["modules"]):
+            kind = own or case["default"]
+            src = "from behave import given\n"
+            if own:
+                src += "use_step_matcher(%r)\n" % own
+            src += "@given(%r)\ndef f%d(context, n):\n    context.calls.append([%d, n])\n" % (MOD_PATTERNS[kind] % i, i, i)
+            with open(os.path.join(top, fname), "w") as fh:
+                fh.write(src)
+        with open(os.path.join(top, "notes.txt"), "w") as fh:
+            fh.write("not a module\n")
+        try:
+            with contextlib.redirect_stderr(io.StringIO()), contextlib.redirect_stdout(io.StringIO()):
+                load_step_modules([top])
+        except BaseException as e:      # noqa
+            return {"load_error": "%s: %s" % (type(e).__name__, e)}
+        after = factory.current_matcher.NAME
+
+        class _C(_Ctx):
+            calls = []
+        for i, _m in enumerate(case["modules"]):
+            for text in ("m%d eats 7 apples" % i, "m%d eats 7 apples." % i):
+                m = registry.find_match(_Step("given", text))
+                if m is None:
+                    outs.append([i, text, "undefined"])
+                    continue
+                ctx = _C()
+                ctx.calls = []
+                try:
+                    m.run(ctx)
+                    outs.append([i, text, "bound", ctx.calls])
+                except Exception as e:      # noqa
+                    outs.append([i, text, "raised", type(e).__name__])
+        return {"outs": outs, "matcher_after": after}
+    finally:
+        shutil.rmtree(top, ignore_errors=True)
+        for k in registry.steps:
+            registry.steps[k] = saved.get(k, [])
+        factory.reset()
+
+
+def oracle_modules(case, obs):
+    out = []
+    if "load_error" in obs:
+        return [("loading the step modules %s (default %s) raised %s" % (case["modules"], case["default"], obs["load_error"]), "modules-load-error")]
+    for i, text, what, *rest in obs["outs"]:
+        own = case["modules"][i][1]
+        kind = own or case["default"]
+        if text.endswith("."):
+            if what != "undefined":
+                out.append(("step %r is bound although the pattern of module %s does not match the complete text" % (text, case["modules"][i][0]),
+                            "modules-partial-match"))
+            continue
+        want = [[i, "7" if kind == "re" else 7]]
+        if what != "bound" or rest[0] != want:
+            out.append(("step %r (module %s, written for the %s matcher: %s) is %s %s; expected its function called with %s. Modules in load "
+                        "order: %s, run default %s" % (text, case["modules"][i][0], kind, "its own choice" if own else "the default",
+                                                       what, rest[0] if rest else "", want, sorted(case["modules"]), case["default"]),
+                        "modules-matcher-leaks"))
+    return out
+
+
+def gen_module_cases(rnd, n):
+    cases = []
+    for _ in range(n):
+        k = rnd.randint(2, 4)
+        names = rnd.sample(["a_steps.py", "b_steps.py", "c_more.py", "z_last.py", "m_mid.py", "B_upper.py"], k)
+        mods = [[nm, rnd.choice([None, None, "re", "cfparse", "parse"])] for nm in names]
+        # module index i is by position in this list, the load order is by sorted file name
+        cases.append({"modules": mods, "default": rnd.choice(["parse", "parse", "re", "cfparse"])})
+    return cases
+
+
 def suites(tier, seed):
     rnd = random.Random(seed * 313 + 11)
     thorough = tier == "thorough"
@@ -1263,4 +1357,10 @@ def suites(tier, seed):
               "coq": {"header": RX_HEADER.replace("StepMatch Regex.", "StepMatch Regex Cuke."), "in_ty": "list catom * ustr",
                       "out_ty": "option (list rarg)", "fn": "fun c => cuke_check_match (fst c) (snd c)",
                       "eqb": "option_eqb (list_eqb rarg_eqb)", "enc": enc_cuke_match, "shard": 300}}
-    return [main, regexes, cukes, cmatch]
+    modcases = gen_module_cases(random.Random(seed * 17 + 1111), 240 if thorough else 60)
+    modules = {"name": "step_modules", "cases": modcases, "impl": impl_modules, "oracle": oracle_modules,
+               "nontrivial": lambda c, o: any(m[1] for m in c["modules"]),
+               "bound": "%d steps directories of 2-4 modules (each with or without its own use_step_matcher choice, which it leaves "
+                        "chosen) x run default parse / re / cfparse, loaded by load_step_modules: every module's definition is "
+                        "compiled by the matcher in force for that module" % len(modcases)}
+    return [main, regexes, cukes, cmatch, modules]
